@@ -25,10 +25,10 @@ def log_floats(lo, hi, sign=False):
 
 def st_L(lo=0.1, hi=100.0, extreme=False):
     """domain extents: the special values 1 and 2*pi, log-uniform in [lo, hi] and (extreme=True) occasionally
-    log-uniform in [1e-3, 1e7] or one of 1e-2, 1e5, 1e6 (absolute tolerances such as isclose(x, 0) only misbehave at extreme scales)"""
+    log-uniform in [1e-3, 1e7], in [2e4, 2e6] (where (2 pi/L)^2 k^2 crosses 1e-8 for the low modes) or one of 1e-2, 1e5, 1e6 (absolute tolerances such as isclose(x, 0) only misbehave at extreme scales)"""
     if extreme:
         return st.one_of(
-            st.sampled_from([1.0, TWO_PI]), log_floats(lo, hi), log_floats(lo, hi), log_floats(1e-3, 1e7), st.sampled_from([1e5, 1e6, 1e-2])
+            st.sampled_from([1.0, TWO_PI]), log_floats(lo, hi), log_floats(lo, hi), log_floats(1e-3, 1e7), log_floats(2e4, 2e6), st.sampled_from([1e5, 1e6, 1e-2])
         )
     return st.one_of(st.sampled_from([1.0, TWO_PI]), log_floats(lo, hi))
 
